@@ -757,61 +757,34 @@ def rule_M5(ctx) -> None:
 
 
 def rule_N5(ctx, rule: str = "N5") -> None:
-    """every function that decodes a base-128 varint (tests the 0x80 continuation
-    bit in a loop) returns normally only on the path where that bit is clear"""
+    """every function that decodes a base-128 varint (decides the 0x80 continuation bit of a byte inside a loop, however
+    the test is spelled) returns normally only on paths that saw a byte with that bit clear"""
+    from .varint import continuation_decided, returns_after_terminator
     mod = ctx.repo.mod(M_INIT)
     sites = 0
     for q, fn in mod.functions():
-        conts = []
-        for n in ast.walk(fn):
-            if isinstance(n, ast.If):
-                t = simplify(from_ast(n.test, lambda nm: C(mod.consts[nm]) if nm in mod.consts and isinstance(mod.consts[nm], int) else None))
-                base = t
-                neg = False
-                while base[0] == "op" and base[1] == "not":
-                    neg = not neg
-                    base = base[2]
-                if base[0] == "op" and base[1] == "&" and C(0x80) in base[2:]:
-                    conts.append((n, neg))
-                elif base[0] == "op" and base[1] == "==" and len(base) == 4 and any(x[0] == "op" and x[1] == "&" and C(0x80) in x[2:] for x in base[2:]) \
-                        and any(x in (C(0), C(0x80)) for x in base[2:]):
-                    # (b & 0x80) == 0: true means clear;  (b & 0x80) == 0x80: true means set
-                    clear_when_true = C(0) in base[2:]
-                    conts.append((n, clear_when_true != neg))
-                elif base[0] == "op" and base[1] in ("<", "==") and any(x[0] == "op" and x[1] == "&" and C(0x80) in x[2:] for x in base[2:]):
-                    conts.append((n, None))
-        loops = [n for n in ast.walk(fn) if isinstance(n, (ast.For, ast.While))]
-        if not conts or not loops:
+        if not any(isinstance(n, (ast.For, ast.While)) for n in ast.walk(fn)):
+            continue
+        if not any(isinstance(n, ast.Constant) and n.value in (0x80, 0x7F) and not isinstance(n.value, bool) for n in ast.walk(fn)):
+            continue
+        if any(isinstance(n, (ast.Yield, ast.YieldFrom)) for n in ast.walk(fn)):
+            continue
+        # writers (they set the bit with `|`) are not readers
+        if any(isinstance(n, ast.BinOp) and isinstance(n.op, ast.BitOr) and any(isinstance(x, ast.Constant) and x.value == 0x80 for x in (n.left, n.right)) for n in ast.walk(fn)):
+            continue
+        if not continuation_decided(mod, fn):
             continue
         sites += 1
-        g = CFG(fn, implicit_exc=False)
-        # edges on which the continuation bit is known clear: the test's branch where (b & 0x80) is falsy
-        ok = True
-        why = ""
-        clear_targets: Set[int] = set()
-        for n, neg in conts:
-            if neg is None:
-                ok = None
-                continue
-            for nd in g.nodes_for(n):
-                if nd.kind != "test":
-                    continue
-                lab = "true" if neg else "false"
-                for m_, l in g.succ[nd.id]:
-                    if l == lab:
-                        clear_targets.add(m_)
-        if ok is None:
-            ctx.inconclusive(rule, f"{q}:returns-after-terminator", "continuation test not in a recognised form", mod.loc(fn))
-            continue
-        # normal exit must not be reachable without crossing a "bit clear" edge target
-        reach = g.reachable([g.entry.id], avoid=clear_targets, labels=normal_edge)
-        if g.exit.id in reach:
-            path = g.find_path(g.entry.id, {g.exit.id}, avoid=clear_targets, labels=normal_edge)
+        n_ret, bad, n_paths = returns_after_terminator(mod, fn)
+        ctx.count(n_paths)
+        if not n_ret:
+            ctx.inconclusive(rule, f"{q}:returns-after-terminator", "no returning path", mod.loc(fn))
+        elif bad is not None:
             ctx.refuted(rule, f"{q}:returns-after-terminator", "returns-on-exhaustion", mod.loc(fn),
-                        f"{q} can return normally without having seen a byte with the continuation bit clear (input ended inside a varint): {g.describe(path) if path else ''}",
-                        "a buffer ending in a byte with bit 0x80 set, e.g. decode_varint(b'\\xac', 0)")
+                        f"{q} can return normally without having seen a byte with the continuation bit clear (input ended inside a varint): "
+                        f"{ {show(k): v for k, v in bad.valuation.items()} }", "a buffer ending in a byte with bit 0x80 set, e.g. decode_varint(b'\\xac', 0)")
         else:
-            ctx.proved(rule, f"{q}:returns-after-terminator", mod.loc(fn))
+            ctx.proved(rule, f"{q}:returns-after-terminator", mod.loc(fn), f"{n_ret} returning paths")
     ctx.floor(rule, "varint decode loops", sites, 1)
 
 
